@@ -11,6 +11,7 @@ import (
 	"sync"
 	"time"
 
+	"verif/corpus"
 	"verif/drive"
 	"verif/findings"
 	. "verif/tsmodel"
@@ -608,6 +609,9 @@ func C16() int {
 		}
 	}
 	items = append(items, c16BuiltinPrograms()...)
+	for _, tp := range corpus.Tiny() { // sole-facility programs: whatever a facility needs must not depend on another statement
+		items = append(items, c16Item{name: "tiny " + tp.Name, src: tp.Src})
+	}
 	for _, cp := range crossReduced(r.Thorough()) { // the cross-feature space (cross.go)
 		items = append(items, c16Item{name: "cross " + cp.name, src: PrintProg(*cp.prog)})
 	}
@@ -681,7 +685,7 @@ func C16() int {
 		}
 		if !rb.OK() || !rw.OK() {
 			// C16 speaks about accepted programs; generated programs are meant to be accepted
-			if strings.HasPrefix(it.name, "builtin") || strings.HasPrefix(it.name, "cross") || strings.HasPrefix(it.name, "skeleton") || strings.HasPrefix(it.name, "empty") || strings.HasPrefix(it.name, "imports") {
+			if strings.HasPrefix(it.name, "builtin") || strings.HasPrefix(it.name, "cross") || strings.HasPrefix(it.name, "tiny") || strings.HasPrefix(it.name, "skeleton") || strings.HasPrefix(it.name, "empty") || strings.HasPrefix(it.name, "imports") {
 				fail("generated-program-rejected", rb.Err+" / "+rw.Err, "")
 			}
 			return
